@@ -4,7 +4,12 @@ from ..common import float_table, has_unmodelled
 from ..runner import Outcome
 
 LEVEL = "proof"
-ASSUMPTIONS = ["HEADER_MISSING_COLUMN_NAMES refers to the line where the column names were expected: the line after the last header line"]
+ASSUMPTIONS = ["HEADER_MISSING_COLUMN_NAMES refers to the line where the column names were expected: the line after the last header line",
+               "the physical lines of a file on disk are ended by LF, CRLF or a lone CR (text mode, universal newlines); an empty line is a line",
+               "Strict / Lenient: the line number carried by the format exception / printed in the warning is judged against the diagnosis of that very line "
+               "(which error is raised first is not this property's subject)"]
+PENDING_DEFECTS = []
+MODES = ["Silent", "Lenient", "Strict"]
 
 
 def expected_errors(lines):
@@ -34,20 +39,46 @@ def expected_errors(lines):
     return exp, k, stripped
 
 
-def request(lines):
-    """The reader.run request (implementation and model) for one file, read in Silent mode."""
+def request(lines, mode="Silent", via=None, consume=None, text=None, given=None, given_norestrict=None):
+    """The reader.run request for one file.  It is what the model is asked (its "lines" are the lines the reader is
+    given); the implementation is run on the same request through factory `via` (filecases.READER_VIAS; None = the plain
+    MafReader(lines=<list>)), consumed in style `consume` (filecases.CONSUME_STYLES; None = a for loop).  For the path-based
+    factories `text` is the text of the file and the lines are its physical lines."""
+    if via in ("path", "gz"):
+        lines = filecases.physical_lines(text)
     allf = [p for l in lines for p in l.rstrip("\r\n").split("\t")]
-    return {"op": "reader.run", "lines": lines, "mode": "Silent", "floats": float_table(allf)}
+    r = {"op": "reader.run", "lines": lines, "mode": mode, "floats": float_table(allf)}
+    if via is not None:
+        r["via"], r["consume"] = via, consume or "for"
+        if via in ("path", "gz"):
+            r["text"] = text
+    if given is not None:
+        r["given"] = given
+    if given_norestrict is not None:
+        r["given_norestrict"] = given_norestrict
+    return r
 
 
-def oracle(lines, i):
-    """The property on the implementation's answer `i` to a Silent read of `lines`: the failure dicts."""
+def how_of(r):
+    """The part of a request beyond its lines (stored in failures, enough to rebuild the request)."""
+    out = {k: r[k] for k in ("via", "consume", "text", "given", "given_norestrict") if k in r}
+    if r.get("mode", "Silent") != "Silent":
+        out["mode"] = r["mode"]
+    return out
+
+
+def run_impl(r):
+    return filecases.reader_open(r) if "via" in r else impl.run(r)
+
+
+def oracle(lines, i, how=None):
+    """The property on the implementation's answer `i` to a Silent (or Lenient) read of `lines`: the failure dicts."""
     from maflib.record import MafRecord
     from maflib.validation import ValidationStringency as VS
     failures = []
     exp, k, stripped = expected_errors(lines)
     got = i["errors"]
-    where = {"lines": lines}
+    where = dict({"lines": lines}, **(how or {}))
     # 1. header part
     hgot = [e for e in got if e[0].startswith("HEADER_LINE") or e[0] in ("HEADER_DUPLICATE_KEYS", "HEADER_UNSUPPORTED_SORT_ORDER")]
     hexp = [e for e in exp if e[1] is not None]
@@ -74,6 +105,8 @@ def oracle(lines, i):
     if i.get("iter_exc") is None and sch is not None:
         for j, recj in enumerate(i["records"]):
             phys = k + 2 + j
+            if phys > len(stripped):
+                break                      # more records than lines: not a line of the input (C16's subject)
             bad = [e for e in recj["errors"] if e[1] is not None and e[1] != phys]
             if bad:
                 failures.append(dict(where, what="error of the record on physical line %d is reported at line %s" % (phys, bad[0][1]),
@@ -88,29 +121,113 @@ def oracle(lines, i):
     return failures
 
 
+HEADER_LINE_TYPES = ("HEADER_DUPLICATE_KEYS", "HEADER_UNSUPPORTED_SORT_ORDER")
+COLUMN_LINE_TYPES = ("SCHEME_MISMATCHING_NUMBER_OF_COLUMN_NAMES", "SCHEME_MISMATCHING_COLUMN_NAMES", "HEADER_MISSING_COLUMN_NAMES")
+
+
+def scheme_of_answer(i):
+    from maflib.schemes import NoRestrictionsScheme
+    if not i or not i.get("scheme"):
+        return None
+    return impl.scheme_by_annotation(i["scheme"]["annotation"]) or NoRestrictionsScheme(column_names=i["scheme"]["names"])
+
+
+def misplaced(lines, sch, tpe, n):
+    """An error of type `tpe` is reported (exception / warning) for line `n` of the file: None when line n is where the
+    compositional diagnosis puts such an error (or the type is not about a line), else a text saying where it belongs."""
+    from maflib.record import MafRecord
+    from maflib.validation import ValidationStringency as VS
+    if n is None:
+        return None
+    exp, k, stripped = expected_errors(lines)
+    if tpe.startswith("HEADER_LINE") or tpe in HEADER_LINE_TYPES:
+        at = [e[1] for e in exp if e[0] == tpe and e[1] is not None]
+        return None if n in at else "header lines with that error: %s" % at
+    if tpe in COLUMN_LINE_TYPES:
+        return None if n == k + 1 else "the column line is line %d" % (k + 1)
+    if tpe.startswith("RECORD_"):
+        if not (k + 2 <= n <= len(stripped)):
+            return "the data lines are lines %d..%d" % (k + 2, len(stripped))
+        if sch is None:
+            return None
+        alone = MafRecord.from_line(stripped[n - 1], scheme=sch, line_number=n, validation_stringency=VS.Silent)
+        if [tpe, n] in [[e.tpe.name, e.line_number] for e in alone.validation_errors]:
+            return None
+        return "line %d alone has the errors %s" % (n, [[e.tpe.name, e.line_number] for e in alone.validation_errors][:4])
+    return None
+
+
+def oracle_reported(lines, i, sch, how=None):
+    """Strict / Lenient reads: the line number of the format exception, and of every logged warning, is the physical
+    number of a line that the compositional diagnosis charges with that error."""
+    where = dict({"lines": lines}, **(how or {}))
+    failures = []
+    for stage in ("init_exc", "iter_exc"):
+        e = i.get(stage)
+        if e and e.startswith("MafFormatException:"):
+            _x, tpe, n = e.split(":")
+            why = misplaced(lines, sch, tpe, None if n == "None" else int(n))
+            if why:
+                failures.append(dict(where, what="the format exception %s reports line %s: %s" % (tpe, n, why), kind="exception-line", got=[tpe, n]))
+    for tpe, n in i.get("logs", []):
+        why = misplaced(lines, sch, tpe, n)
+        if why:
+            failures.append(dict(where, what="the warning %s reports line %s: %s" % (tpe, n, why), kind="warning-line", got=[tpe, n]))
+            break
+    return failures
+
+
 def eval_read(r, m):
-    """One Silent read (shared by run and replay_case): executed on the implementation, compared with the model's answer `m`
-    (None = model not consulted) and, unless constructing the reader raised, judged by the oracle.
+    """One read (shared by run and replay_case): executed on the implementation, compared with the model's answer `m`
+    (None = model not consulted) and, unless there is nothing to judge, judged by the oracle.
     Returns (implementation answer, correspondence, failures or None); correspondence is None / "agree" / "unmodelled" /
-    "dontcare" / a disagreement dict; failures is None when the reader could not be constructed (nothing to judge)."""
-    lines = r["lines"]
-    i = impl.run(r)
+    "dontcare" / a disagreement dict; failures is None when a Silent reader could not be constructed (nothing to judge)."""
+    lines, mode = r["lines"], r.get("mode", "Silent")
+    i = run_impl(r)
     corr = None
     if m is not None:
         corr = "agree"
         if has_unmodelled(m):
             corr = "unmodelled"
+        elif r.get("consume") == "next" and m.get("iter_exc") == "ValueError":
+            corr = "unmodelled"     # the model reads as a for loop does (order enforced); next(reader) bypasses the order check
         elif m != i:
             from .. import colcases
             if any(colcases.dontcare_numeric(p) or colcases.dontcare_uuid(p) for l in lines for f in l.split("\t") for p in [f] + f.split(";")):
                 corr = "dontcare"
             else:
                 keys = [k for k in sorted(set(m) | set(i)) if m.get(k) != i.get(k)]
-                corr = {"op": "reader.run", "lines": lines, "mode": "Silent", "differs": keys,
+                corr = {"op": "reader.run", "lines": lines, "mode": mode, "how": how_of(r), "differs": keys,
                         "model": {k: m.get(k) for k in keys if k != "records"}, "impl": {k: i.get(k) for k in keys if k != "records"}}
-    if "init_exc" in i:
-        return i, corr, None
-    return i, corr, oracle(lines, i)
+    how = how_of(r)
+    if mode == "Silent":
+        if "init_exc" in i:
+            return i, corr, None
+        return i, corr, oracle(lines, i, how)
+    # Lenient / Strict: what is reported on the way (warnings, the exception), and the error list where there is one
+    sch = scheme_of_answer(i)
+    if sch is None:      # Strict reader not constructed: the scheme is the one a Silent reader of the same input settles on
+        sch = scheme_of_answer(run_impl(dict(r, mode="Silent")))
+    failures = oracle_reported(lines, i, sch, how)
+    if "init_exc" not in i and not failures:
+        failures = oracle(lines, i, how)
+    return i, corr, failures
+
+
+def gen_shape(rng, anns):
+    """A file shape of the main family (0..k header lines, column line present / absent / last, 0..4 data lines, defects injected),
+    more often with a long header in which malformed and repeated pragmas precede well-formed ones."""
+    ann = rng.choice(anns)
+    hdr = None
+    k = rng.random()
+    if k < 0.35:
+        hdr = filecases.typical_header(rng, ann or "my-own-spec") + (filecases.header_lines(rng, rng.randrange(0, 3)) if rng.random() < 0.5 else [])
+        rng.shuffle(hdr)
+    elif k < 0.65:
+        hdr = filecases.typical_header(rng, ann or "my-own-spec") + filecases.header_lines(rng, rng.randrange(2, 7))
+        hdr += [rng.choice(hdr) for _ in range(rng.randrange(0, 3))]
+        rng.shuffle(hdr)
+    return filecases.whole_file(rng, ann, header=hdr, col=rng.random() < 0.9, n_data=rng.choice([0, 0, 1, 2, 4]))
 
 
 def run(ctx):
@@ -118,6 +235,9 @@ def run(ctx):
     out.rule = ("file shapes with 0..5 header lines, column line present / absent / last, 0..4 data lines, defects injected at every kind of position "
                 "(malformed pragma, duplicate, renamed column, wrong field count, invalid field); every reported line number is compared with the physical "
                 "position of the text it is about; non-trivial = file with at least one numbered error; distinct files")
+    out.rule += ("; the same shapes with empty lines anywhere, LF / CRLF / lone CR / mixed terminators, last line unterminated, read through every reader factory "
+                 "(MafReader(lines=<list>), (lines=<iterator>), reader_from(<plain file>), reader_from(<.gz file>)) x consumption style (for / iter()+next() / next(reader)) x "
+                 "Silent / Lenient / Strict: error lists, logged warnings and the format exception all carry physical line numbers")
     rng = ctx.rng("files")
     reqs = []
     anns = [None, "gdc-1.0.0", "gdc-1.0.0-public"]
@@ -129,6 +249,21 @@ def run(ctx):
             rng.shuffle(hdr)
         lines = filecases.whole_file(rng, ann, header=hdr, col=rng.random() < 0.9, n_data=rng.choice([0, 0, 1, 2, 4]))
         reqs.append(request(lines))
+    # every factory / consumption style / mode, files with empty lines and every terminator (own stream: the cases above are unchanged)
+    rng = ctx.rng("factories")
+    for _ in range(ctx.scale(300, 4000)):
+        lines = gen_shape(rng, anns)
+        if rng.random() < 0.7:
+            lines = filecases.with_empty_lines(rng, lines, rng.choice([0.2, 0.5]))
+        via = rng.choice(filecases.READER_VIAS)
+        kw = {"via": via, "consume": rng.choice(["for", "for", "iter", "next"])}
+        if via in ("path", "gz"):
+            kw["text"] = filecases.text_of(rng, lines)
+            if not filecases.encodable(kw["text"]):
+                continue
+        if rng.random() < 0.1:
+            kw["given"] = rng.choice(anns[1:])
+        reqs.append(request(lines, rng.choice(["Silent", "Silent", "Lenient", "Strict"]), **kw))
     mo = ctx.driver.run(reqs)
     for r, m in zip(reqs, mo):
         out.evaluations += 1
@@ -140,19 +275,28 @@ def run(ctx):
             out.dontcare += 1
         elif isinstance(corr, dict):
             out.disagreements.append(corr)
+        for tag in ("via:" + r.get("via", "list"), "style:" + r.get("consume", "for"), "mode:" + r["mode"]):
+            out.distribution[tag] += 1
         if failures is None:
             continue
         out.failures += failures
+        if "errors" not in i:       # Strict reader not constructed: the exception's line was judged
+            if i["init_exc"].startswith("MafFormatException:") and not i["init_exc"].endswith(":None"):
+                out.nontrivial.add(repr((lines, sorted(how_of(r).items()))))
+            continue
         got = i["errors"]
         if any(e[1] is not None for e in got):
-            out.nontrivial.add(repr(lines))
+            out.nontrivial.add(repr((lines, sorted(how_of(r).items()))) if "via" in r else repr(lines))
         out.distribution["numbered_errors"] += sum(1 for e in got if e[1] is not None)
         if len(out.samples) < 4 and any(e[1] is not None for e in got):
             out.sample({"lines": [l[:60] for l in lines[:7]], "errors": got[:6]})
     return out
 
 
-KINDS = ("header-line", "column-line", "data-line")
+KINDS = ("header-line", "column-line", "data-line", "exception-line", "warning-line")
+
+
+INPUT_KEYS = ("lines", "mode", "via", "consume", "text", "given", "given_norestrict")
 
 
 def replay_case(ctx, failure):
@@ -161,7 +305,12 @@ def replay_case(ctx, failure):
     lines = failure.get("lines")
     if failure.get("kind") not in KINDS or not isinstance(lines, list):
         return None
-    r = request(lines)
+    how = how_of(failure)
+    mode = how.pop("mode", "Silent")
+    if mode not in MODES or (how.get("via") in ("path", "gz") and not isinstance(how.get("text"), str)):
+        return None
+    r = request(lines, mode, **how)
+    lines = r["lines"]
     m = None
     if ctx.driver.available():
         try:
@@ -169,11 +318,19 @@ def replay_case(ctx, failure):
         except Exception as e:  # noqa
             print("model: driver failed (%s)" % str(e)[:200])
     i, corr, failures = eval_read(r, m)
-    print("executed: MafReader(lines=<%d lines>, validation_stringency=Silent), then iterated to the end" % len(lines))
+    via, style = how.get("via", "list"), how.get("consume", "for")
+    opened = {"list": "MafReader(lines=<list of %d lines>" % len(lines), "iter": "MafReader(lines=<iterator over %d lines>" % len(lines),
+              "path": "MafReader.reader_from(<plain file of %d characters, %d physical lines>" % (len(how.get("text", "")), len(lines)),
+              "gz": "MafReader.reader_from(<.gz file of %d characters, %d physical lines>" % (len(how.get("text", "")), len(lines))}[via]
+    print("executed: %s, validation_stringency=%s%s), then consumed to the end with %s" % (
+        opened, mode, ", scheme=<%s>" % how["given"] if "given" in how else "",
+        {"for": "a for loop", "iter": "iter(reader) and next() on it", "next": "next(reader)"}[style]))
+    if "text" in how:
+        print("  file text: %r" % how["text"][:300])
     for n, l in enumerate(lines[:12], start=1):
         print("  line %d: %r" % (n, l[:100]))
     if "init_exc" in i:
-        print("implementation: constructing the reader raised %s (nothing to judge)" % i["init_exc"])
+        print("implementation: constructing the reader raised %s%s" % (i["init_exc"], " (nothing to judge)" if mode == "Silent" else ""))
     else:
         exp, k, _stripped = expected_errors(lines)
         print("  %d header line(s); the column line is expected on line %d; expected numbered header errors %s" % (k, k + 1, [e for e in exp if e[1] is not None]))
@@ -182,6 +339,8 @@ def replay_case(ctx, failure):
             print("implementation: record on physical line %d has errors %s" % (k + 2 + j, recj["errors"][:4]))
         if i.get("iter_exc"):
             print("implementation: iteration raised %s" % i["iter_exc"])
+        if mode == "Lenient":
+            print("implementation: warnings logged %s" % [e for e in i.get("logs", []) if e[1] is not None][:8])
     if m is not None:
         if corr == "unmodelled":
             print("model:          input outside the model's domain")
@@ -192,7 +351,11 @@ def replay_case(ctx, failure):
         print("oracle: [%s] %s%s" % (g["kind"], g["what"], "; expected %s got %s" % (g["expected"], g["got"]) if "expected" in g else ""))
     if not failures:
         print("oracle: satisfied (every reported line number is the physical line of the text it is about)")
-    return failures or []
+        print("the stored input alone satisfies the property; the failure may depend on what the process did before it (state kept between calls):")
+        failures = filecases.rerun_in_fresh_process("C17", failure, INPUT_KEYS)
+        for g in failures[:1]:
+            print("oracle (in the re-run): %s" % g["what"])
+    return failures
 
 
 def shrink(ctx, f):
